@@ -232,7 +232,8 @@ def get_breadcrumbs(node):
     result = []
     node = node.parent
     while node.parent:
-        if node.prompt:
+        # Excluded menus are not documented, so they have no anchor to link to
+        if node.prompt and node.prompt[0] not in EXCLUDED_MENU_NAMES:
             result = [f":ref:`{get_link_anchor(node)}`"] + result
         node = node.parent
     return " > ".join(result)
